@@ -106,7 +106,7 @@ Theorem create_writes_only_own_finalizer m o term boot out m' r fx :
 Proof.
   unfold create_cluster_cidr. intros H e He.
   destruct (o_selkey o); [|inversion H; subst; destruct He].
-  destruct (create_set o term) as [c|er|]; try (inversion H; subst; destruct He; fail).
+  destruct (create_set o term boot) as [c|er|]; try (inversion H; subst; destruct He; fail).
   assert (Hsame : same_but_own_finalizer o (if need_finalizer o then with_fins o (o_fins o ++ [finalizer]) else o)).
   { destruct (need_finalizer o); [|apply same_refl]. repeat split. cbn [with_fins o_fins].
     rewrite remove_str_app, remove_str_self. apply app_nil_r. }
@@ -342,7 +342,7 @@ Theorem create_when_mapped_keeps_map m o term boot out k :
   fst (fst (create_cluster_cidr m o term boot out)) = m.
 Proof.
   intros Hk Hm. unfold create_cluster_cidr. rewrite Hk.
-  destruct (create_set o term) as [c|e|]; try reflexivity.
+  destruct (create_set o term boot) as [c|e|]; try reflexivity.
   destruct (cc_v4 c), (cc_v6 c); try reflexivity; rewrite Hm;
     destruct boot; try reflexivity; destruct (need_finalizer o); try reflexivity; destruct out; reflexivity.
 Qed.
@@ -357,7 +357,7 @@ Proof.
     rewrite (H m Ef). cbn. rewrite str_eqb_refl. reflexivity.
 Qed.
 
-Lemma create_set_name o term c : create_set o term = Ok c -> cc_name c = o_name o.
+Lemma create_set_name o term st c : create_set o term st = Ok c -> cc_name c = o_name o.
 Proof.
   unfold create_set. destruct (mk_pool V4 (o_v4 o) (o_hb o)); try discriminate. destruct (mk_pool V6 (o_v6 o) (o_hb o)); try discriminate.
   intros H. inversion H. reflexivity.
@@ -372,9 +372,9 @@ Proof.
   destruct (negb (is_mapped_obj m o)) eqn:Em.
   - (* it was not mapped: it is now *)
     unfold create_cluster_cidr in H. unfold is_mapped_obj in *. destruct (o_selkey o) as [k|] eqn:Ek; [|discriminate].
-    destruct (create_set o false) as [c|e|] eqn:Ec; try discriminate.
+    destruct (create_set o false false) as [c|e|] eqn:Ec; try discriminate.
     apply Bool.negb_true_iff in Em. rewrite Em in H. rewrite Hn in H.
     destruct (cc_v4 c), (cc_v6 c); inversion H; subst;
-      rewrite <- (create_set_name _ _ _ Ec), is_mapped_map_set; reflexivity.
+      rewrite <- (create_set_name _ _ _ _ Ec), is_mapped_map_set; reflexivity.
   - inversion H; subst. rewrite Em. reflexivity.
 Qed.
